@@ -27,7 +27,7 @@ package graph
 //@ ghost wf(g *Graph) bool =
 //@     g.adjacencyOut != nil && g.adjacencyIn != nil && g.hash != nil && g.adjacencyOut != g.adjacencyIn
 //@     && forall(k, any, has(g.adjacencyOut, k) == has(g.hash, k) && has(g.adjacencyIn, k) == has(g.hash, k))
-//@     && forall(k, any, imp(has(g.hash, k), g.adjacencyOut[k] != nil && g.adjacencyIn[k] != nil))
+//@     && forall(k, any, imp(has(g.hash, k), g.adjacencyOut[k] != nil && g.adjacencyIn[k] != nil && hc(g.hash[k]) == k))
 //@     && forall(a, any, b, any, imp(has(g.hash, a) && has(g.hash, b) && a != b, g.adjacencyOut[a] != g.adjacencyOut[b] && g.adjacencyIn[a] != g.adjacencyIn[b]))
 //@     && forall(a, any, b, any, imp(has(g.hash, a) && has(g.hash, b), g.adjacencyOut[a] != g.adjacencyIn[b]))
 //@     && forall(a, any, b, any, imp(has(g.hash, a) && has(g.adjacencyOut[a], b), has(g.hash, b) && has(g.adjacencyIn[b], a) && g.adjacencyIn[b][a] == g.adjacencyOut[a][b]))
@@ -36,11 +36,12 @@ package graph
 
 // frame: nothing outside g's own footprint (as of the old state) changes.
 //@ ghost frameG(g *Graph) bool =
-//@     forall(x, *Graph, imp(x != g, x.adjacencyOut == old(x.adjacencyOut) && x.adjacencyIn == old(x.adjacencyIn) && x.hash == old(x.hash)))
+//@     forall(x, *Graph, imp(old(allocated(x)) && x != g, x.adjacencyOut == old(x.adjacencyOut) && x.adjacencyIn == old(x.adjacencyIn) && x.hash == old(x.hash)))
 //@     && forall(m, Outer, imp(old(allocated(m)) && m != old(g.adjacencyOut) && m != old(g.adjacencyIn), unchanged(m)))
 //@     && forall(m, HashM, imp(old(allocated(m)) && m != old(g.hash), unchanged(m)))
 //@     && forall(m, Inner, imp(old(allocated(m)) && !old(infoot(g, m)), unchanged(m)))
 // the three references of an initialised graph never change
+//@ ghost footGrows(g *Graph) bool = forall(m, Inner, imp(infoot(g, m), old(infoot(g, m)) || fresh(m)))
 //@ ghost sameRefs(g *Graph) bool = imp(!old(zerog(g)), g.adjacencyOut == old(g.adjacencyOut) && g.adjacencyIn == old(g.adjacencyIn) && g.hash == old(g.hash))
 //@ ghost sameVerts(g *Graph) bool = forall(k, any, has(g.hash, k) == old(has(g.hash, k)) && g.hash[k] == old(g.hash[k]))
 //@ ghost sameEdges(g *Graph) bool = forall(a, any, b, any, edge(g, a, b) == old(edge(g, a, b)) && imp(edge(g, a, b), wgt(g, a, b) == old(wgt(g, a, b))))
@@ -80,6 +81,7 @@ package graph
 //@   ensures  [new-rep] imp(!old(has(g.hash, hc(v))), g.hash[hc(v)] == v)
 //@   ensures  [edges] sameEdges(g)
 //@   ensures  [frame] frameG(g)
+//@   ensures  [foot] footGrows(g)
 //@   assigns  Graph.adjacencyOut, Graph.adjacencyIn, Graph.hash, Outer, HashM, Inner
 
 //@ func (*Graph).AddOverwrite
@@ -91,6 +93,7 @@ package graph
 //@   ensures  [overwrites] g.hash[hc(v)] == v
 //@   ensures  [edges] sameEdges(g)
 //@   ensures  [frame] frameG(g)
+//@   ensures  [foot] footGrows(g)
 //@   assigns  Graph.adjacencyOut, Graph.adjacencyIn, Graph.hash, Outer, HashM, Inner
 
 //@ func (*Graph).Remove
@@ -101,6 +104,7 @@ package graph
 //@   ensures  [reps] forall(k, any, imp(has(g.hash, k), g.hash[k] == old(g.hash[k])))
 //@   ensures  [edges] forall(a, any, b, any, edge(g, a, b) == (old(edge(g, a, b)) && a != hc(v) && b != hc(v)) && imp(edge(g, a, b), wgt(g, a, b) == old(wgt(g, a, b))))
 //@   ensures  [frame] frameG(g)
+//@   ensures  [foot] footGrows(g)
 //@   assigns  Outer, HashM, Inner
 //@   loop 1 invariant g.adjacencyOut == old(g.adjacencyOut) && g.adjacencyIn == old(g.adjacencyIn) && g.hash == old(g.hash)
 //@   loop 1 invariant rmap1 == old(g.adjacencyOut[hc(v)]) && h == hc(v)
@@ -133,6 +137,7 @@ package graph
 //@   ensures  [edges] forall(a, any, b, any, edge(g, a, b) == (old(edge(g, a, b)) || (a == hc(v1) && b == hc(v2))))
 //@   ensures  [weights] forall(a, any, b, any, imp(edge(g, a, b), wgt(g, a, b) == ite(a == hc(v1) && b == hc(v2), 1, old(wgt(g, a, b)))))
 //@   ensures  [frame] frameG(g)
+//@   ensures  [foot] footGrows(g)
 //@   assigns  Graph.adjacencyOut, Graph.adjacencyIn, Graph.hash, Outer, HashM, Inner
 
 //@ func (*Graph).AddEdgeWeighted
@@ -142,6 +147,7 @@ package graph
 //@   ensures  [edges] forall(a, any, b, any, edge(g, a, b) == (old(edge(g, a, b)) || (a == hc(v1) && b == hc(v2))))
 //@   ensures  [weights] forall(a, any, b, any, imp(edge(g, a, b), wgt(g, a, b) == ite(a == hc(v1) && b == hc(v2), weight, old(wgt(g, a, b)))))
 //@   ensures  [frame] frameG(g)
+//@   ensures  [foot] footGrows(g)
 //@   assigns  Graph.adjacencyOut, Graph.adjacencyIn, Graph.hash, Outer, HashM, Inner
 
 //@ func (*Graph).RemoveEdge
@@ -150,4 +156,209 @@ package graph
 //@   ensures  imp(!old(zerog(g)), sameVerts(g))
 //@   ensures  [edges] forall(a, any, b, any, edge(g, a, b) == (old(edge(g, a, b)) && !(a == hc(v1) && b == hc(v2))) && imp(edge(g, a, b), wgt(g, a, b) == old(wgt(g, a, b))))
 //@   ensures  [frame] frameG(g)
+//@   ensures  [foot] footGrows(g)
 //@   assigns  Graph.adjacencyOut, Graph.adjacencyIn, Graph.hash, Outer, HashM, Inner
+
+// ---------------------------------------------------------------- queries
+
+// The sequence returned has one entry per key of the ranged map: its length
+// is the number of keys and its element set is exactly the set of
+// representatives.  nothing on the heap that existed before is modified.
+//@ ghost heapKept() bool =
+//@     forall(x, *Graph, imp(old(allocated(x)), x.adjacencyOut == old(x.adjacencyOut) && x.adjacencyIn == old(x.adjacencyIn) && x.hash == old(x.hash)))
+//@     && forall(m, Outer, imp(old(allocated(m)), unchanged(m)))
+//@     && forall(m, HashM, imp(old(allocated(m)), unchanged(m)))
+//@     && forall(m, Inner, imp(old(allocated(m)), unchanged(m)))
+
+//@ ghost copied(M2 Outer, M1 Outer, S set[any]) bool =
+//@     forall(k, any, has(M2, k) == in(k, S))
+//@     && forall(k, any, imp(in(k, S), M2[k] != nil && fresh(M2[k]) && forall(x, any, has(M2[k], x) == has(M1[k], x) && M2[k][x] == M1[k][x])))
+//@     && forall(a, any, b, any, imp(in(a, S) && in(b, S) && a != b, M2[a] != M2[b]))
+
+//@ func (*Graph).Vertices
+//@   requires wf0(g)
+//@   ensures  [slices-kept] sliceskept([]Vertex) && (fresh(result) || result == nil)
+//@   ensures  [count] len(result) == len(g.hash)
+//@   ensures  [sound] forall(i, int, imp(0 <= i && i < len(result), exists(k, any, has(g.hash, k) && result[i] == g.hash[k])))
+//@   ensures  [complete] forall(k, any, imp(has(g.hash, k), exists(i, int, 0 <= i && i < len(result) && result[i] == g.hash[k])))
+//@   assigns  []Vertex
+//@   loop 1 invariant sliceskept([]Vertex) && fresh(result)
+//@   loop 1 invariant len(result) == len(seen1) && soff(result) == 0
+//@   loop 1 invariant forall(k, any, imp(in(k, seen1), has(g.hash, k)))
+//@   loop 1 invariant forall(i, int, imp(0 <= i && i < len(result), exists(k, any, in(k, seen1) && result[i] == g.hash[k])))
+//@   loop 1 invariant forall(k, any, imp(in(k, seen1), exists(i, int, 0 <= i && i < len(result) && result[i] == g.hash[k])))
+
+//@ func (*Graph).OutEdges
+//@   requires wf0(g)
+//@   ensures  [slices-kept] sliceskept([]Vertex) && (fresh(result) || result == nil)
+//@   ensures  [nil-iff-empty] (len(result) == 0) == forall(b, any, !edge(g, hc(v), b))
+//@   ensures  [count] len(result) == len(g.adjacencyOut[hc(v)])
+//@   ensures  [sound] forall(i, int, imp(0 <= i && i < len(result), exists(b, any, edge(g, hc(v), b) && result[i] == g.hash[b])))
+//@   ensures  [complete] forall(b, any, imp(edge(g, hc(v), b), exists(i, int, 0 <= i && i < len(result) && result[i] == g.hash[b])))
+//@   assigns  []Vertex
+//@   loop 1 invariant sliceskept([]Vertex) && fresh(result)
+//@   loop 1 invariant len(result) == len(seen1) && soff(result) == 0 && rmap1 == edges && edges == g.adjacencyOut[hc(v)]
+//@   loop 1 invariant forall(k, any, imp(in(k, seen1), has(edges, k)))
+//@   loop 1 invariant forall(k, any, imp(in(k, seen1), edge(g, hc(v), k)))
+//@   loop 1 invariant forall(i, int, imp(0 <= i && i < len(result), exists(k, any, in(k, seen1) && result[i] == g.hash[k])))
+//@   loop 1 invariant forall(k, any, imp(in(k, seen1), exists(i, int, 0 <= i && i < len(result) && result[i] == g.hash[k])))
+
+//@ func (*Graph).InEdges
+//@   requires wf0(g)
+//@   ensures  [slices-kept] sliceskept([]Vertex) && (fresh(result) || result == nil)
+//@   ensures  [nil-iff-empty] (len(result) == 0) == forall(a, any, !edge(g, a, hc(v)))
+//@   ensures  [count] len(result) == len(g.adjacencyIn[hc(v)])
+//@   ensures  [sound] forall(i, int, imp(0 <= i && i < len(result), exists(a, any, edge(g, a, hc(v)) && result[i] == g.hash[a])))
+//@   ensures  [complete] forall(a, any, imp(edge(g, a, hc(v)), exists(i, int, 0 <= i && i < len(result) && result[i] == g.hash[a])))
+//@   assigns  []Vertex
+//@   loop 1 invariant sliceskept([]Vertex) && fresh(result)
+//@   loop 1 invariant len(result) == len(seen1) && soff(result) == 0 && rmap1 == edges && edges == g.adjacencyIn[hc(v)]
+//@   loop 1 invariant forall(k, any, imp(in(k, seen1), has(edges, k)))
+//@   loop 1 invariant forall(k, any, imp(in(k, seen1), edge(g, k, hc(v))))
+//@   loop 1 invariant forall(i, int, imp(0 <= i && i < len(result), exists(k, any, in(k, seen1) && result[i] == g.hash[k])))
+//@   loop 1 invariant forall(k, any, imp(in(k, seen1), exists(i, int, 0 <= i && i < len(result) && result[i] == g.hash[k])))
+
+// Reverse: a view that SHARES the three maps, swapped.
+//@ func (*Graph).Reverse
+//@   requires wf0(g)
+//@   ensures  [shares-state] wf(g) && wf(result) && result.adjacencyOut == g.adjacencyIn && result.adjacencyIn == g.adjacencyOut && result.hash == g.hash
+//@   ensures  fresh(result) && sameRefs(g) && sameVerts(g) && sameEdges(g) && frameG(g)
+//@   ensures  forall(x, *Graph, imp(old(allocated(x)) && x != g, x.adjacencyOut == old(x.adjacencyOut) && x.adjacencyIn == old(x.adjacencyIn) && x.hash == old(x.hash)))
+//@   assigns  Graph.adjacencyOut, Graph.adjacencyIn, Graph.hash, Outer, HashM
+
+// Copy: same view, disjoint footprint, original untouched.
+//@ func (*Graph).Copy
+//@   requires wf0(g)
+//@   ensures  [wf] wf(result) && fresh(result)
+//@   ensures  [separate] fresh(result.adjacencyOut) && fresh(result.adjacencyIn) && fresh(result.hash)
+//@   ensures  [separate-inner] forall(k, any, imp(has(result.hash, k), fresh(result.adjacencyOut[k]) && fresh(result.adjacencyIn[k])))
+//@   ensures  [same-verts] forall(k, any, has(result.hash, k) == has(g.hash, k) && result.hash[k] == g.hash[k])
+//@   ensures  [same-edges] forall(a, any, b, any, edge(result, a, b) == edge(g, a, b) && imp(edge(g, a, b), wgt(result, a, b) == wgt(g, a, b)))
+//@   ensures  [original-untouched] heapKept()
+//@   assigns  Graph.adjacencyOut, Graph.adjacencyIn, Graph.hash, Outer, HashM, Inner
+//@   loop 1 invariant heapKept()
+//@   loop 1 invariant copied(g2.adjacencyOut, g.adjacencyOut, seen1)
+//@   loop 1 invariant forall(k, any, imp(in(k, seen1), has(g.adjacencyOut, k)))
+//@   loop 1 invariant forall(k, any, !has(g2.adjacencyIn, k) && !has(g2.hash, k))
+//@   loop 2 invariant heapKept()
+//@   loop 2 invariant copied(g2.adjacencyOut, g.adjacencyOut, remove(seen1, rkey1))
+//@   loop 2 invariant in(rkey1, seen1) && has(g.adjacencyOut, rkey1) && set == g.adjacencyOut[rkey1] && rmap2 == set
+//@   loop 2 invariant forall(k, any, imp(in(k, seen1), has(g.adjacencyOut, k)))
+//@   loop 2 invariant forall(k, any, !has(g2.adjacencyIn, k) && !has(g2.hash, k))
+//@   loop 2 invariant copy != nil && fresh(copy) && forall(x, any, imp(in(x, seen1) && x != rkey1, g2.adjacencyOut[x] != copy))
+//@   loop 2 invariant forall(x, any, has(copy, x) == in(x, seen2) && imp(in(x, seen2), has(set, x) && copy[x] == set[x]))
+//@   loop 3 invariant heapKept()
+//@   loop 3 invariant copied(g2.adjacencyOut, g.adjacencyOut, dom(g.adjacencyOut))
+//@   loop 3 invariant copied(g2.adjacencyIn, g.adjacencyIn, seen3)
+//@   loop 3 invariant forall(k, any, imp(in(k, seen3), has(g.adjacencyIn, k)))
+//@   loop 3 invariant forall(a, any, b, any, imp(has(g2.adjacencyOut, a) && in(b, seen3), g2.adjacencyOut[a] != g2.adjacencyIn[b]))
+//@   loop 3 invariant forall(k, any, !has(g2.hash, k))
+//@   loop 4 invariant heapKept()
+//@   loop 4 invariant copied(g2.adjacencyOut, g.adjacencyOut, dom(g.adjacencyOut))
+//@   loop 4 invariant copied(g2.adjacencyIn, g.adjacencyIn, remove(seen3, rkey3))
+//@   loop 4 invariant in(rkey3, seen3) && has(g.adjacencyIn, rkey3) && set == g.adjacencyIn[rkey3] && rmap4 == set
+//@   loop 4 invariant forall(k, any, imp(in(k, seen3), has(g.adjacencyIn, k)))
+//@   loop 4 invariant forall(a, any, b, any, imp(has(g2.adjacencyOut, a) && in(b, seen3) && b != rkey3, g2.adjacencyOut[a] != g2.adjacencyIn[b]))
+//@   loop 4 invariant forall(k, any, !has(g2.hash, k))
+//@   loop 4 invariant copy != nil && fresh(copy) && forall(x, any, imp(in(x, seen3) && x != rkey3, g2.adjacencyIn[x] != copy)) && forall(x, any, imp(has(g2.adjacencyOut, x), g2.adjacencyOut[x] != copy))
+//@   loop 4 invariant forall(x, any, has(copy, x) == in(x, seen4) && imp(in(x, seen4), has(set, x) && copy[x] == set[x]))
+//@   loop 5 invariant heapKept()
+//@   loop 5 invariant copied(g2.adjacencyOut, g.adjacencyOut, dom(g.adjacencyOut))
+//@   loop 5 invariant copied(g2.adjacencyIn, g.adjacencyIn, dom(g.adjacencyIn))
+//@   loop 5 invariant forall(a, any, b, any, imp(has(g2.adjacencyOut, a) && has(g2.adjacencyIn, b), g2.adjacencyOut[a] != g2.adjacencyIn[b]))
+//@   loop 5 invariant forall(k, any, has(g2.hash, k) == in(k, seen5) && imp(in(k, seen5), has(g.hash, k) && g2.hash[k] == g.hash[k]))
+
+// ---------------------------------------------------------------- lemmas (verif_lemmas.go)
+
+// sep(x, y): two initialised graphs share no map.
+//@ ghost sepRefs(x *Graph, y *Graph) bool =
+//@     x != y && x.adjacencyOut != y.adjacencyOut && x.adjacencyOut != y.adjacencyIn && x.adjacencyIn != y.adjacencyOut && x.adjacencyIn != y.adjacencyIn && x.hash != y.hash
+//@ ghost sepInner(x *Graph, y *Graph) bool = forall(m, Inner, !(infoot(x, m) && infoot(y, m)))
+//@ ghost allocG(y *Graph) bool =
+//@     allocated(y.adjacencyOut) && allocated(y.adjacencyIn) && allocated(y.hash)
+//@     && forall(k, any, imp(has(y.hash, k), allocated(y.adjacencyOut[k]) && allocated(y.adjacencyIn[k])))
+//@ ghost sep(x *Graph, y *Graph) bool = sepRefs(x, y) && sepInner(x, y) && allocG(y)
+// keptG(y): every map of y, and y's three references, are exactly as before.
+//@ ghost keptG(y *Graph) bool =
+//@     y.adjacencyOut == old(y.adjacencyOut) && y.adjacencyIn == old(y.adjacencyIn) && y.hash == old(y.hash)
+//@     && unchanged(y.hash) && unchanged(y.adjacencyOut) && unchanged(y.adjacencyIn)
+//@     && forall(k, any, imp(has(y.hash, k), unchanged(y.adjacencyOut[k]) && unchanged(y.adjacencyIn[k])))
+
+//@ func lemmaCopySeparates
+//@   requires g != nil && wf(g)
+//@   ensures  [copy-separates] wf(result) && sep(result, g) && sep(g, result) && keptG(g)
+//@   ensures  [copy-same-view] forall(k, any, has(result.hash, k) == has(g.hash, k) && result.hash[k] == g.hash[k]) && forall(a, any, b, any, edge(result, a, b) == edge(g, a, b) && imp(edge(g, a, b), wgt(result, a, b) == wgt(g, a, b)))
+//@   assigns  Graph.adjacencyOut, Graph.adjacencyIn, Graph.hash, Outer, HashM, Inner
+
+//@ func lemmaSepAdd
+//@   requires x != nil && y != nil && wf(x) && wf(y) && sep(x, y)
+//@   ensures  [independent] keptG(y)
+//@   ensures  [still-separate-refs] sepRefs(x, y)
+//@   ensures  [still-separate-inner] sepInner(x, y)
+//@   ensures  [still-allocated] allocG(y)
+//@   assigns  Graph.adjacencyOut, Graph.adjacencyIn, Graph.hash, Outer, HashM, Inner
+
+//@ func lemmaSepAddOverwrite
+//@   requires x != nil && y != nil && wf(x) && wf(y) && sep(x, y)
+//@   ensures  [independent] keptG(y)
+//@   ensures  [still-separate-refs] sepRefs(x, y)
+//@   ensures  [still-separate-inner] sepInner(x, y)
+//@   ensures  [still-allocated] allocG(y)
+//@   assigns  Graph.adjacencyOut, Graph.adjacencyIn, Graph.hash, Outer, HashM, Inner
+
+//@ func lemmaSepRemove
+//@   requires x != nil && y != nil && wf(x) && wf(y) && sep(x, y)
+//@   ensures  [independent] keptG(y)
+//@   ensures  [still-separate-refs] sepRefs(x, y)
+//@   ensures  [still-separate-inner] sepInner(x, y)
+//@   ensures  [still-allocated] allocG(y)
+//@   assigns  Outer, HashM, Inner
+
+//@ func lemmaSepAddEdge
+//@   requires x != nil && y != nil && wf(x) && wf(y) && sep(x, y) && has(x.hash, hc(a)) && has(x.hash, hc(b))
+//@   ensures  [independent] keptG(y)
+//@   ensures  [still-separate-refs] sepRefs(x, y)
+//@   ensures  [still-separate-inner] sepInner(x, y)
+//@   ensures  [still-allocated] allocG(y)
+//@   assigns  Graph.adjacencyOut, Graph.adjacencyIn, Graph.hash, Outer, HashM, Inner
+
+//@ func lemmaSepRemoveEdge
+//@   requires x != nil && y != nil && wf(x) && wf(y) && sep(x, y)
+//@   ensures  [independent] keptG(y)
+//@   ensures  [still-separate-refs] sepRefs(x, y)
+//@   ensures  [still-separate-inner] sepInner(x, y)
+//@   ensures  [still-allocated] allocG(y)
+//@   assigns  Graph.adjacencyOut, Graph.adjacencyIn, Graph.hash, Outer, HashM, Inner
+
+//@ func lemmaReverseInvolution
+//@   requires g != nil && wf0(g)
+//@   ensures  [reverse-involution] result.adjacencyOut == g.adjacencyOut && result.adjacencyIn == g.adjacencyIn && result.hash == g.hash && wf(result)
+//@   assigns  Graph.adjacencyOut, Graph.adjacencyIn, Graph.hash, Outer, HashM
+
+//@ func lemmaReverseShares
+//@   requires g != nil && wf0(g)
+//@   ensures  [reverse-shares] wf(g) && has(g.hash, hc(a)) && has(g.hash, hc(b)) && edge(g, hc(b), hc(a)) && wgt(g, hc(b), hc(a)) == w
+//@   ensures  [reverse-shares-rest] forall(x, any, y, any, imp(!(x == hc(b) && y == hc(a)), edge(g, x, y) == old(edge(g, x, y))))
+//@   assigns  Graph.adjacencyOut, Graph.adjacencyIn, Graph.hash, Outer, HashM, Inner
+
+//@ func lemmaReAddKeepsEdges
+//@   requires g != nil && wf0(g)
+//@   ensures  [readd-keeps-edges] sameEdges(g) && has(g.hash, hc(a)) && g.hash[hc(a)] == a
+//@   assigns  Graph.adjacencyOut, Graph.adjacencyIn, Graph.hash, Outer, HashM, Inner
+
+//@ func lemmaRemoveIncident
+//@   requires g != nil && wf0(g)
+//@   ensures  [remove-incident] forall(x, any, !edge(g, hc(a), x) && !edge(g, x, hc(a))) && !has(g.hash, hc(a))
+//@   assigns  Outer, HashM, Inner
+
+//@ func lemmaLastWeight
+//@   requires g != nil && wf0(g) && has(g.hash, hc(a)) && has(g.hash, hc(b))
+//@   ensures  [last-weight-wins] edge(g, hc(a), hc(b)) && wgt(g, hc(a), hc(b)) == w2
+//@   assigns  Graph.adjacencyOut, Graph.adjacencyIn, Graph.hash, Outer, HashM, Inner
+
+//@ func lemmaMirror
+//@   requires g != nil && wf(g)
+//@   ensures  [mirror-edge-listed] imp(edge(g, hc(a), hc(b)), exists(i, int, 0 <= i && i < len(result0) && result0[i] == g.hash[hc(b)]) && exists(j, int, 0 <= j && j < len(result1) && result1[j] == g.hash[hc(a)]))
+//@   ensures  [mirror-succ-implies-edge] forall(i, int, imp(0 <= i && i < len(result0) && has(g.hash, hc(b)) && result0[i] == g.hash[hc(b)], edge(g, hc(a), hc(b))))
+//@   ensures  [mirror-pred-implies-edge] forall(j, int, imp(0 <= j && j < len(result1) && has(g.hash, hc(a)) && result1[j] == g.hash[hc(a)], edge(g, hc(a), hc(b))))
+//@   assigns  []Vertex
